@@ -88,6 +88,7 @@ def extract(path):
         if v.get("name") in TYPES and ("struct" in v["inner"]) and v.get("visibility") == "public":
             by_name[v["name"]] = v
     methods, markers = [], []
+    clones = []        # iterator types with a `Clone` / `Copy` impl
     item_kind = {}
     sealed = {}
     for name, item in sorted(by_name.items()):
@@ -118,6 +119,8 @@ def extract(path):
                 continue
             if I["is_synthetic"] or I["blanket_impl"]:
                 continue
+            if trait in ("Clone", "Copy") and name in ITER_TYPES:
+                clones.append(name)
             if trait not in ("", "Cache", "ResizableCache", "Iterator", "DoubleEndedIterator", "IntoIterator"):
                 continue
             self_lts = self_lifetimes(I["for"])
@@ -175,6 +178,7 @@ def extract(path):
     # exclusive access in the result: a `&mut` somewhere in the return type, or a value of one of the mutable iterator types
     for m in methods:
         m["excl_out"] = bool(m["mut_out"] or iter_kind.get(m.get("out_ty")) == "mutIter")
+    extract.clones = sorted(set(clones))
     return methods, markers, sealed, iter_kind
 
 
@@ -212,6 +216,8 @@ def emit_lean(methods, markers, sealed, iter_kind, path):
             mk["ty"], kind, mk["marker"].lower(), "true" if mk["synthetic"] else "false", ", ".join(bs)))
     L.append(",\n".join(rows))
     L.append("]")
+    L.append("/-- iterator types that implement `Clone` (or `Copy`), with what they hand out -/")
+    L.append("def clonedIters : List (Ty × Kind) := [" + ", ".join("(.%s, .%s)" % (t, iter_kind.get(t, "sharedIter")) for t in getattr(extract, "clones", [])) + "]")
     L.append("end M.Gen")
     os.makedirs(os.path.dirname(path), exist_ok=True)
     txt = "\n".join(L) + "\n"
